@@ -102,6 +102,12 @@ def wire_monitor(wire, own_parity, channel_sids=()):
             if s['term'] and not s['follows']:
                 kind = 'channel-half-close' if s['kind'] == 'ch' else 'wire'
                 out.append(('%s:emits-%s-after-own-%s' % (kind, ty, s['term']), where))
+            elif ty == 'PAYLOAD' and s.get('own_complete'):
+                # fragment level: COMPLETE belongs on the last fragment only; a PAYLOAD (fragment) after a frame that carried COMPLETE is a
+                # payload after the endpoint completed its sending direction
+                out.append(('wire:payload-after-own-complete', where))
+        if f.get('complete') and ty in ('PAYLOAD', 'REQUEST_CHANNEL'):
+            s['own_complete'] = True
         s['follows'] = f['follows']
         if not f['follows']:
             # a completed frame: its type is the first fragment's, remembered in 'cur'
